@@ -296,6 +296,17 @@ pub fn run(tier: Tier, replay: Option<String>) -> i32 {
                         let m = MockMemory::new(&l);
                         check_queries(ctx, "mock", &m, &l, &addrs, lens, true);
                         nlay.fetch_add(1, std::sync::atomic::Ordering::Relaxed);
+                        // the mmap collection refuses a region that ends at 2^64 today; should it
+                        // ever accept one, its queries have to be right for it as well
+                        if l.regs.last().map_or(false, |r| r.0.checked_add(r.1).is_none()) {
+                            if let Ok(mm) = build_mmap(&l) {
+                                let r = crate::crash::quiet_unwind(|| check_queries(ctx, "mmap", &mm, &l, &addrs, lens, true));
+                                if r.is_err() {
+                                    fail(ctx, "mmap", &l, "panic", base, 0, "a query on a map whose last region ends at the top of the address space panicked".into());
+                                }
+                                nlay.fetch_add(1, std::sync::atomic::Ordering::Relaxed);
+                            }
+                        }
                     }
                 }
             });
